@@ -542,11 +542,13 @@ impl<'a> LiveEvents<'a> {
                                 anchor: anchor_id,
                                 location,
                             };
-                            // Nothing is replayed for this alias, yet it is a node of the enclosing
-                            // container: let the budget see the stand-in, or the container's
-                            // key / value bookkeeping falls out of step (a `<<` after `k: *a` was
-                            // taken for a value and not counted as a merge key).
-                            self.observe_budget_for_replay(&ev)?;
+                            // Nothing is replayed for this alias (so nothing more is counted), yet
+                            // it is a node of the enclosing container: the container's key / value
+                            // bookkeeping must advance, or it falls out of step (a `<<` after
+                            // `k: *a` was taken for a value and not counted as a merge key).
+                            if let Some(budget) = self.budget.as_mut() {
+                                budget.alias_stands_for_itself();
+                            }
                             self.record(&ev, false, false);
                             self.last_location = location;
                             self.produced_any_in_doc = true;
